@@ -34,6 +34,10 @@ from . import pyval
 from .c02 import Undefined, sat
 from .common import NCPU, REPO, Check
 
+import warnings
+
+warnings.filterwarnings("ignore", category=SyntaxWarning)      # ast.literal_eval of pool texts such as '{"a": "\\/"}'
+
 DATA_TAG = 1000
 FUEL = 40
 
@@ -1628,6 +1632,52 @@ def _has_key(j, key) -> bool:
     return False
 
 
+def _has_set(j) -> bool:
+    if isinstance(j, dict):
+        if j.get("k") in ("set", "frozenset"):
+            return True
+        return any(_has_set(v) for v in j.values())
+    if isinstance(j, list):
+        return any(_has_set(v) for v in j)
+    return False
+
+
+def _loose(j):
+    """value form for comparing results that went through a set: which of several `==` elements a set keeps depends on the
+    hash order the real code iterated in (SubDate(2020,2,20) vs date(2020,2,20), 6 vs Decimal('6')), so elements are compared
+    by Python equality, everything else exactly"""
+    if isinstance(j, dict):
+        if "q" in j:
+            items = [_loose(x) for x in j["q"]]
+            if j.get("k") in ("set", "frozenset"):
+                return ("set", j.get("k"), j.get("c", 0), frozenset(_hashable_loose(x) for x in j["q"]))
+            return ("seq", j.get("k"), j.get("c", 0), tuple(items))
+        if "m" in j:
+            pairs = [(_loose(k), _loose(v)) for k, v in j["m"]]
+            if j.get("c", 0) >= DATA_TAG:
+                pairs.sort(key=repr)
+            return ("map", j.get("c", 0), tuple(pairs))
+    return ("atom", json.dumps(canon(j), sort_keys=True))
+
+
+def _hashable_loose(j):
+    try:
+        v = c12.dec(j, None)
+        hash(v)
+        return v
+    except Exception:
+        return _loose(j)
+
+
+def set_equal(a, b, case) -> bool:
+    if not (_has_set(a) and _has_set(b)):
+        return False
+    try:
+        return _loose(a) == _loose(b)
+    except Exception:
+        return False
+
+
 def _shape(d, depth=0) -> str:
     if d == "any":
         return "any"
@@ -1733,7 +1783,7 @@ class C01(Check):
                     return f"model returns a value, implementation ({key}) {_out_class(o)}"
                 if has_x(o["ok"]):
                     return f"implementation ({key}) returned a value outside the universe"
-                if canon(o["ok"]) != canon(mo["ok"]):
+                if canon(o["ok"]) != canon(mo["ok"]) and not set_equal(o["ok"], mo["ok"], case):
                     return f"different values ({key})"
             elif "diverge" in mo:
                 # Conv.lean (owned by C12, being re-synchronised) still mirrors the timestamp loop of to_datetime as it was
